@@ -34,7 +34,9 @@ STD_PRED = {
 class ByteVar:
     """analysis of `body` with respect to the byte variable identified by `is_var(operand) -> bool`."""
 
-    def __init__(self, F, body, is_var, depth=4):
+    def __init__(self, F, body, is_var, depth=4, domain=None):
+        self.FULL = frozenset(domain) if domain is not None else FULL
+        self.byte = domain is None
         self.F = F
         self.b = body
         self.is_var = is_var
@@ -181,6 +183,57 @@ class ByteVar:
                     return True
         return False
 
+    def _val(self, o, x, depth=6):
+        """value of integer operand o when the variable is x (constants, the variable, casts, arithmetic); None if unknown."""
+        k = op_const(o)
+        if k is not None:
+            return const_int(k)
+        if self._as_var(o):
+            return x
+        p = op_place(o)
+        if p is None or depth <= 0:
+            return None
+        if len(p["p"]) == 1 and isinstance(p["p"][0], dict) and p["p"][0].get("f") == 0:
+            d = self.b.single_def(p["l"])
+            if d and d[2] == "rv" and d[3]["k"] == "bin" and d[3]["op"].endswith("WithOverflow"):
+                return self._val_rv(d[3], x, depth - 1)
+            return None
+        if p["p"]:
+            return None
+        d = self.b.single_def(p["l"])
+        if d is None or d[2] != "rv":
+            return None
+        return self._val_rv(d[3], x, depth - 1)
+
+    def _val_rv(self, rv, x, depth):
+        if rv["k"] in ("use",) or (rv["k"] == "cast" and rv["kind"].startswith("IntToInt")):
+            return self._val(rv["o"], x, depth)
+        if rv["k"] == "bin":
+            a, c = self._val(rv["a"], x, depth), self._val(rv["b"], x, depth)
+            if a is None or c is None:
+                return None
+            op = rv["op"].replace("WithOverflow", "")
+            try:
+                if op == "Add":
+                    return a + c
+                if op == "Sub":
+                    return a - c
+                if op == "Mul":
+                    return a * c
+                if op == "Div":
+                    return int(a / c) if c else None
+                if op == "Rem":
+                    return (abs(a) % abs(c)) * (1 if a >= 0 else -1) if c else None
+                if op == "BitAnd":
+                    return a & c
+                if op == "Shl":
+                    return a << c
+                if op == "Shr":
+                    return a >> c
+            except Exception:
+                return None
+        return None
+
     # ---- truth sets
     def truth(self, o, depth=8):
         """set of variable values for which bool operand o is true; None if not a function of the variable we understand."""
@@ -189,7 +242,7 @@ class ByteVar:
             v = const_int(k)
             if v is None:
                 return None
-            return FULL if v else frozenset()
+            return self.FULL if v else frozenset()
         p = op_place(o)
         if p is None or p["p"] or depth <= 0:
             return None
@@ -216,7 +269,7 @@ class ByteVar:
                 return self.truth(rv["o"], depth - 1)
             if rv["k"] == "un" and rv["op"] == "Not":
                 t = self.truth(rv["o"], depth - 1)
-                return None if t is None else FULL - t
+                return None if t is None else self.FULL - t
             if rv["k"] == "bin" and rv["op"] in ("Eq", "Ne", "Lt", "Le", "Gt", "Ge"):
                 a, c = rv["a"], rv["b"]
                 va, vc = self._as_var(a), self._as_var(c)
@@ -225,9 +278,19 @@ class ByteVar:
                 ops = {"Eq": operator.eq, "Ne": operator.ne, "Lt": operator.lt, "Le": operator.le, "Gt": operator.gt, "Ge": operator.ge}
                 f = ops[rv["op"]]
                 if va and kc is not None:
-                    return frozenset(x for x in FULL if f(x, kc))
+                    return frozenset(x for x in self.FULL if f(x, kc))
                 if vc and ka is not None:
-                    return frozenset(x for x in FULL if f(ka, x))
+                    return frozenset(x for x in self.FULL if f(ka, x))
+                # arithmetic over the variable on either side (x % 8 != 0, x / 8 > 16, ...)
+                if self.mentions_var(a) or self.mentions_var(c):
+                    out = set()
+                    for x in self.FULL:
+                        xa, xc = self._val(a, x), self._val(c, x)
+                        if xa is None or xc is None:
+                            return None
+                        if f(xa, xc):
+                            out.add(x)
+                    return frozenset(out)
                 return None
             if rv["k"] == "bin" and rv["op"] in ("BitAnd", "BitOr", "BitXor"):
                 ta, tc = self.truth(rv["a"], depth - 1), self.truth(rv["b"], depth - 1)
@@ -248,9 +311,9 @@ class ByteVar:
                 return frozenset(kb)
             st = self._const_struct(args[0])
             if st and st["name"].endswith("RangeInclusive"):
-                return frozenset(range(int(st["fields"]["start"]), int(st["fields"]["end"]) + 1)) & FULL
+                return frozenset(range(int(st["fields"]["start"]), int(st["fields"]["end"]) + 1)) & self.FULL
             if st and st["name"].endswith("ops::Range"):
-                return frozenset(range(int(st["fields"]["start"]), int(st["fields"]["end"]))) & FULL
+                return frozenset(range(int(st["fields"]["start"]), int(st["fields"]["end"]))) & self.FULL
             return None
         if short in ("eq", "ne") and len(args) == 2 and "cmp::PartialEq" in nm:
             for x, y in ((args[0], args[1]), (args[1], args[0])):
@@ -261,7 +324,7 @@ class ByteVar:
                         ky = kb[0] if kb is not None and len(kb) == 1 else None
                     if ky is not None:
                         s = frozenset([ky])
-                        return s if short == "eq" else FULL - s
+                        return (s & self.FULL) if short == "eq" else self.FULL - s
             return None
         if short in STD_PRED and len(args) >= 1 and self._as_var(args[0]) and ("num::" in nm or "AsChar" in nm or "char" in nm):
             return STD_PRED[short]
@@ -278,7 +341,7 @@ class ByteVar:
         if hasattr(self, "_reach"):
             return self._reach
         b = self.b
-        R = {start: FULL}
+        R = {start: self.FULL}
         self._reach = R            # re-entrancy for multi-def temps: use what is known so far
         work = [start]
         while work:
@@ -302,8 +365,8 @@ class ByteVar:
                 elif self._as_var(t["d"]):
                     used = set()
                     for v, bb in t["tg"]:
-                        outs.append((bb, S & frozenset([int(v) & 0xFF])))
-                        used.add(int(v) & 0xFF)
+                        outs.append((bb, S & frozenset([int(v) & 0xFF if self.byte else int(v)])))
+                        used.add(int(v) & 0xFF if self.byte else int(v))
                     outs.append((t["else"], S - frozenset(used)))
                 else:
                     for s in b.succ[x]:
